@@ -347,6 +347,11 @@ def systematic_cases():
         # joins / concats
         _case([{"call": "natural_join", "b": {"table": "e"}, "on": ["g"], "jointype": "left"}], de),
         _case([{"call": "natural_join", "b": {"table": "e"}, "on": [["x", "k"], "g"], "jointype": "Inner"}], de),
+        # one left column equated with two right columns, and order_rows(limit=0)
+        _case([{"call": "natural_join", "b": {"table": "e2"}, "on": [["x", "k"], ["x", "k2"]], "jointype": "inner"}],
+              {"d": D, "e2": _t(["k", "k2", "z"], ["int", "int", "float"], [[_i(1), _i(1), _f(2)], [_i(3), _i(1), _f(7, 2)]])}),
+        _case([{"call": "order_rows", "cols": ["x"], "limit": 0}]),
+        _case([{"call": "order_rows", "cols": ["x"], "limit": 0}, _ext([("a", "x + 1")])]),
         _case([{"call": "natural_join", "b": {"table": "e", "steps": [{"call": "rename_columns", "map": [["g9", "g"]]}]},
                 "on": [], "jointype": "cross"}], de),
         _case([{"call": "natural_join", "b": {"table": "e", "steps": [{"call": "order_rows", "cols": ["k"]}]},
